@@ -289,6 +289,11 @@ func (e *Enc) obligeClause(kind string, c *Clause, pos token.Pos, goal string) *
 	}
 	o := e.oblige(kind, shorten(c.Src), pos, goal)
 	o.Owned = true
+	// a configured skip of callee preconditions ("pre"): listed as an assumption, not claimed
+	if strings.HasPrefix(kind, "pre:") && contains(e.skipKinds, "pre") {
+		o.Owned = false
+		e.note("preconditions of callees are not claimed for this function (configured skip): %s", shorten(c.Src))
+	}
 	o.Clause = c
 	return o
 }
